@@ -340,8 +340,14 @@ def _wm_world(wm):
     w = {}
     for p, e in wm.get("extra", {}).items():
         w[p] = e
-    w["proj/" + wm.get("cfg_name", "Breadlog.yaml")] = {"t": "f", "mode": 0o644, "data": wm["cfg_raw"] if wm.get("cfg_raw") is not None else render_cfg(wm["cfg"]),
-                                                       "subst": True}
+    cfg_entry = {"t": "f", "mode": 0o644, "data": wm["cfg_raw"] if wm.get("cfg_raw") is not None else render_cfg(wm["cfg"]), "subst": True}
+    if wm.get("cfg_link") and "/" not in wm.get("cfg_name", "Breadlog.yaml"):
+        # the configuration file is a symbolic link to a file kept elsewhere (shared between projects): its location - for
+        # source_dir and the lock - is still the directory the link is in
+        w["outside/common/shared-breadlog.yaml"] = cfg_entry
+        w["proj/" + wm.get("cfg_name", "Breadlog.yaml")] = {"t": "l", "target": "../outside/common/shared-breadlog.yaml"}
+    else:
+        w["proj/" + wm.get("cfg_name", "Breadlog.yaml")] = cfg_entry
     for p, segs in wm["files"].items():
         w[p] = {"t": "f", "mode": wm.get("modes", {}).get(p, 0o644), "data": segs_bytes(segs)}
     if wm.get("lock") is not None:
@@ -404,7 +410,7 @@ def gen_ids(rng, n, p_have=0.4, lo=1, hi=60, special=None):
 
 def gen_world_model(rng, structured=None, use_cache="rand", nfiles=None, sizes=None, p_have=0.4, id_hi=60,
                     lock="rand", shapes=None, max_stmts=4, min_missing=1, special_ids=None, crlf_p=0.0, unicode_p=None,
-                    decoy_p=0.25, custom_macros_p=0.15, layout_p=0.1, heads_p=0.12, many=None, extra_keys_p=0.3, modes_p=0.15, mtimes_p=0.3, many_files=None, many_exact=False, yaml_style_p=0.3, high_ids_p=0.08, links_p=0.12, hardlinks_p=0.08, big_p=0.0, cr_p=0.04):
+                    decoy_p=0.25, custom_macros_p=0.15, layout_p=0.1, heads_p=0.12, many=None, extra_keys_p=0.3, modes_p=0.15, mtimes_p=0.3, many_files=None, many_exact=False, yaml_style_p=0.3, high_ids_p=0.08, links_p=0.12, hardlinks_p=0.08, big_p=0.0, cr_p=0.04, siblings_p=0.1, cfg_link_p=0.04):
     """A project with generated in-scope source files under proj/src (nested sometimes)."""
     if unicode_p is None:
         unicode_p = rng.choice([0.0, 0.0, 0.0, 0.3, 0.9])
@@ -523,6 +529,15 @@ def gen_world_model(rng, structured=None, use_cache="rand", nfiles=None, sizes=N
             d = sub_dirs[rng.randrange(len(sub_dirs))]
             wm["extra"]["proj/src/compat_%d" % rng.randrange(100)] = {"t": "l", "target": d[len("proj/src/"):]}
         wm["extra"]["proj/src/dangling.rs"] = {"t": "l", "target": "does/not/exist.rs"}
+    if files and rng.random() < siblings_p:
+        # what editors, merges and crashed tools leave next to a source file - user files all the same
+        fl = sorted(files)
+        tgt = fl[rng.randrange(len(fl))]
+        for suf in rng.sample([".tmp", ".bak", "~", ".orig", ".new", ".swp"], 2):
+            wm["extra"][tgt + suf] = {"t": "f", "mode": 0o644, "data": b"// not a source file any more\nfn old() { info!(\"sibling " + suf.encode() + b"\"); }\n"}
+        wm["extra"][tgt[:-3] + ".tmp"] = {"t": "f", "mode": 0o600, "data": b"scratch of somebody else\n"}
+    if rng.random() < cfg_link_p:
+        wm["cfg_link"] = True
     if files and rng.random() < hardlinks_p:
         # a second (hard-linked) name of a source file under an out-of-scope name: a backup made with cp -al / rsync
         # --link-dest, or an editor's .orig.  Replacing the source file by rename leaves that name alone; writing through
